@@ -106,6 +106,9 @@ def selftest():
         assert len(ref) == len(naive)
 
 
+BAD_PRIO = object()
+
+
 def dec_prio(p):
     """Numeric priorities of other types, written ['dec', '1.5'] / ['frac', 3, 2] / ['bool', 1] in the histories."""
     if isinstance(p, list):
@@ -166,6 +169,15 @@ class Check(object):
                 ops.append(['remove', r.choice(tasks)])
             else:
                 ops.append([k])
+        if pkey == 'default':
+            # now and then an add() that is refused - a priority that cannot be turned into a number - for a task that
+            # may well be queued already: the call raises and the queue is what it was (placed by position, no draws)
+            out = []
+            for i_, op in enumerate(ops):
+                out.append(op)
+                if i_ % 23 == 22:
+                    out.append(['add_bad', tasks[i_ % len(tasks)], ['huge', 'text', 'obj', 'neg-huge'][(i_ // 23) % 4]])
+            ops = out
         return {'kind': 'pq', 'size_factor': r.choice([1520, 2, 2, 3, 8]), 'ops': ops, 'pkey': pkey, 'default': dflt}
 
     def run(self, h, stats=None):
@@ -192,6 +204,13 @@ class Check(object):
                 args = (t,) if len(op) == 2 else (t, prio)
                 want = outcome(lambda: ref.add(t, prio))
                 fn = lambda q: q.add(*args)
+            elif name == 'add_bad':
+                t = dec_task(op[1])
+                bad = {'huge': 10 ** 400, 'neg-huge': -10 ** 400, 'text': 'high', 'obj': BAD_PRIO}[op[2]]
+                want = outcome(lambda: -float(bad))       # what turning it into a number raises; the queue stays as it is
+                fn = lambda q: q.add(t, bad)
+                if stats is not None:
+                    stats.count('refused_adds')
             elif name == 'remove':
                 t = dec_task(op[1])
                 want = outcome(lambda: ref.remove(t))
